@@ -47,6 +47,15 @@ RULE = (
     "an intermediate value, with a COSPricer built before / between / after the assignments and in 60% used before them, 30% "
     "on a model that also went through the re-initialised parameter object; COS / FFT / closed form of the live model judged "
     "against df, F of the final values and against the freshly built model; 3 more cases per run assign spot), "
+    "SIZE REGIMES of the vector arguments (strikes of COS call / put / digital / forward, of the FFT pricer and of the closed form; "
+    "points of COSPricer.density_log): uniform grids over the box strike range of length 1, 2, 3, 4, 5, 7, 8, 16, 31..33, 64, 97, "
+    "127..129, 255..257 (4 per run, n = 10000 or one of 128, 512, 2048, 4096, 16384), 200..420 (1 per run, default n), and lengths "
+    "with len*n log-uniform in [2^22, 2^23.75] at the default n (always a prime length, ~430..1400 strikes, in the box, FFT on the same "
+    "vector) and in [2^22, 2^23.25] at two other n (up to ~80000 strikes; prime with prob. 1/2), handed over sorted or (1/3) shuffled; "
+    "oracles: vector == the elements priced alone (every element for len <= 33, otherwise consecutive parts of random sizes "
+    "1..max(32, 2^18/n) with size-one parts as python floats, plus 11 single scalar strikes), parity / forward on the whole "
+    "vector, and in the box bounds / monotone / call-spread / convex / digital on the whole vector, density >= -1e-8, COS ~ closed "
+    "form (Black-Scholes) and COS ~ FFT on all elements; "
     "and synthetic densities that are exactly an N-term cosine polynomial on [a,b] "
     "(N 2..7, n = N + {0,1,9,40}, random coefficients, interval (-lo, hi) with lo, hi in [0.3,1.5]) for the replay of the exactness theorems. "
     "Measured once on the unchanged tree (900 draws, seeds 0..29): inside the box doubling n and/or l changes call/spot "
@@ -89,6 +98,12 @@ ASSUMPTIONS = [
     "calibration) rebuilds the model from a re-initialised parameter object, which is what zoo.reinitialised does.  spot is "
     "half cached (log_spot): known finding C18-spot-assignment-stale-log-spot-*, generated separately from the r / d histories. "
     "tolerances: live parity 1e-10*spot, live == fresh 1e-10*spot (density 1e-9 relative to its maximum) [0 observed], others as above",
+    "size regimes: the pricers are element-wise in the strike, so a vector must price like its elements at any length; measured on "
+    "the unchanged tree (quick seeds 0..11, 96 cases, len*n up to 2^24): vector - elements = 0 exactly for COS put / digital / call / "
+    "density_log, FFT call, closed form (tolerances 1e-11*spot, 1e-11, 1e-11*max density); parity on the long vector 6.4e-14 abs; "
+    "COS - closed form 8e-14 abs; COS - FFT 1.2e-6 abs = 0.04 x tolerance.  The box for n != 10000 is the same rule "
+    "|phi_L(T, n*pi/(2(b-a)))| <= 1e-10 evaluated with that n; lengths beyond len*n = 2^23.75 (~270 MB per complex matrix in the "
+    "unchanged code) are not generated",
     "density quadrature (harness side): a failing mass / tail verdict at 2049 (4097) points is re-evaluated at 4x the points, up to "
     "8193+, before it is reported (HEM sigma = 0.008, T = 0.12: 1.8e-6 at 2049 points, 9e-14 at 8193)",
     "the arguments the closed form hands to norm.cdf are observed by replacing the name `norm` inside "
@@ -188,7 +203,7 @@ class Built:
     def __init__(self, case):
         self.case = case
         self.model = zoo.make_exp(case["fam"], case["params"], spot=case["spot"], r=case["r"], d=case["d"])
-        self.cos = COSPricer(self.model)
+        self.cos = COSPricer(self.model, n=case["n"]) if "n" in case else COSPricer(self.model)
         self.T = T = case["T"]
         self.spot, self.r, self.d = case["spot"], case["r"], case["d"]
         self.df = math.exp(-self.r * T)
@@ -204,7 +219,8 @@ class Built:
             h = STRIKE_FRACTION * self.delta
             lo, hi = self.F * max(0.5, math.exp(-h)), self.F * min(1.5, math.exp(h))
             self.K = np.linspace(lo, hi, case["m"])
-            case["K"] = [float(k) for k in self.K]
+            if case.get("kind") != "size":        # the long vectors of the size regimes are regenerated from (m, box), never stored
+                case["K"] = [float(k) for k in self.K]
         try:
             m4 = float(self.model.std_moment(4.0, T))
         except Exception:
@@ -1046,6 +1062,239 @@ def exact_density_probe(ctx, case):
                                                            "put": put, "digital": dig, "model_put": out_p, "model_digital": out_d}, cls=dict(family="cospoly"))
 
 
+# ---------------------------------------------------------------------------------------------------- size regimes
+# The property quantifies over "vector and scalar strikes" without a bound on the length of the vector.  The pricers are
+# element-wise in the strike (COSPricer builds a len(strikes) x n matrix, FFTPricer interpolates, the closed form is a numpy
+# expression), so: pricing a vector == pricing each of its elements alone, at EVERY length, and the statement's own oracles
+# (parity, bounds, monotone, convex, digital a decreasing discounted probability, COS ~ closed form ~ FFT) hold on the long
+# vector as a whole.  Generated: lengths 1, 2, 3, ... around powers of two, odd / even / prime, a few hundred, and lengths
+# with len * n in [2^22, 2^23.75] (n = COS terms: the default 10000 and 128 ... 16384), sorted or shuffled.
+SIZE_SMALL = [1, 2, 3, 4, 5, 7, 8, 16, 31, 32, 33, 64, 97, 127, 128, 129, 255, 256, 257]
+SIZE_N = [128, 512, 2048, 4096, 16384]      # non-default numbers of COS terms
+SIZE_N_DEFAULT = 10_000
+SIZE_PART = 2 ** 18                         # a part of the element-wise reference holds at most this many matrix entries (>= 32 strikes)
+
+
+def _next_prime(m):
+    m = max(2, int(m))
+    while any(m % q == 0 for q in range(2, int(math.isqrt(m)) + 1)):
+        m += 1
+    return m
+
+
+def draw_size_case(rng, regime, fam=None, n=None):
+    """regime 'small': a length of SIZE_SMALL; 'hundreds': 200..420; 'large': len * n log-uniform in [2^22, 2^23.75] (default n)
+    resp. [2^22, 2^23.25] (other n).  The length is taken as drawn (odd or even) or moved to the next prime (always for the
+    default-n large case: a prime length is divisible by no block count)."""
+    fam = fam or rng.choice(FAMS)
+    if n is None:
+        n = SIZE_N_DEFAULT if (regime != "small" or rng.random() < 0.5) else rng.choice(SIZE_N)
+    base = draw_case(rng, fam, y_branch=rng.choice([0.5, 1.0, 1.5]) if fam == "cgmy" else None)
+    if regime == "small":
+        m = rng.choice(SIZE_SMALL)
+    elif regime == "hundreds":
+        m = rng.randint(200, 420)
+    else:
+        top = 23.75 if n == SIZE_N_DEFAULT else 23.25
+        m = int(2 ** rng.uniform(22.03, top) / n) + 1
+        if n == SIZE_N_DEFAULT or rng.random() < 0.5:
+            m = _next_prime(m)
+    return dict(kind="size", regime=regime, fam=fam, params=base["params"], spot=base["spot"], r=base["r"], d=base["d"], T=base["T"],
+                n=n, m=m, order=rng.choice(["sorted", "sorted", "shuffled"]), part_seed=rng.randint(0, 10 ** 6))
+
+
+def _parts(rng, m, cmax):
+    """a partition of range(m) into consecutive parts of random sizes 1..cmax"""
+    sizes, i = [], 0
+    while i < m:
+        s = min(rng.randint(1, cmax), m - i)
+        sizes.append(s)
+        i += s
+    return sizes
+
+
+def _elementwise(fn, X, sizes):
+    """fn on the parts of X one after the other; a part of size one is handed over as a python float (a scalar strike)"""
+    out, i = [], 0
+    for s in sizes:
+        arg = float(X[i]) if s == 1 else X[i:i + s]
+        out.append(np.asarray(fn(arg)).reshape(-1))
+        i += s
+    return np.concatenate(out)
+
+
+def _worst(x):
+    x = np.abs(np.asarray(x, dtype=float))
+    if not np.all(np.isfinite(x)):
+        return int(np.argmax(~np.isfinite(x))), float("inf")
+    i = int(np.argmax(x))
+    return i, float(x[i])
+
+
+def size_probe(ctx, case):
+    import random
+    B = Built(case)
+    cos, T, K, spot, df, F, n, m = B.cos, B.T, B.K, B.spot, B.df, B.F, case["n"], case["m"]
+    prng = random.Random(case["part_seed"])
+    cls = dict(B.cls, regime=case["regime"], default_n=(n == SIZE_N_DEFAULT))
+    info = {"len(strikes)": m, "n": n, "len*n / 2^22": m * n / 2 ** 22, "order": case["order"], "K[0]": float(K[0]), "K[-1]": float(K[-1])}
+    ctx.count("c18.size.vector_elementwise", case, nontrivial=True,
+              branch=f"{case['regime']}:{'n=default' if n == SIZE_N_DEFAULT else 'n=other'}:{'box' if B.inbox else 'out'}")
+    ctx.branches[f"c18.size:len*n>=2^{min(24, max(0, int(math.log2(m * n))))}"] += 1
+
+    def fail(probe, what, **detail):
+        ctx.fail("oracle", probe, case, dict(info, what=what, **detail), cls=cls)
+
+    # the vector as handed to the pricers: sorted, or in a random order (results are put back into strike order)
+    perm = np.arange(m)
+    if case["order"] == "shuffled":
+        perm = np.array(prng.sample(range(m), m), dtype=int)
+    Kv = K[perm]
+
+    def vec(fn):
+        out = np.asarray(fn(Kv), dtype=float).reshape(-1)
+        if out.shape != (m,):
+            return np.full(m, np.nan)
+        back = np.empty(m)
+        back[perm] = out
+        return back
+
+    # element-wise reference: every element alone for short vectors, otherwise consecutive parts of random sizes (>= 32 strikes
+    # possible, <= SIZE_PART matrix entries, size-one parts as python floats) plus the ends and random single strikes
+    cmax = 1 if m <= 33 else max(32, SIZE_PART // n)
+    sizes = _parts(prng, m, cmax)
+    singles = sorted({0, m - 1, m // 2} | {prng.randrange(m) for _ in range(8)})
+    call, put, dig, fwdc = (vec(lambda k, f=f: f(k, T)) for f in (cos.call, cos.put, cos.digital, cos.forward))
+    for name, fn, v, sc in (("put", cos.put, put, spot), ("digital", cos.digital, dig, 1.0)):
+        ref = _elementwise(lambda k: fn(k, T), K, sizes)
+        i, err = _worst(v - ref)
+        note("size.elementwise", err, 1e-11 * sc)
+        if not err <= 1e-11 * sc:
+            fail("c18.size.vector_elementwise", f"COSPricer.{name} of a strike vector != the same strikes priced alone / in short parts",
+                 index=i, K=K[i], vector=v[i], alone=ref[i], tol=1e-11 * sc, nb_differing=int(np.sum(~(np.abs(v - ref) <= 1e-11 * sc))))
+            break
+    else:
+        one = np.array([np.asarray(cos.call(float(K[i]), T)).reshape(-1)[0] for i in singles])
+        i, err = _worst(call[singles] - one)
+        if not err <= 1e-11 * spot:
+            fail("c18.size.vector_elementwise", "COSPricer.call of a strike vector != the same strikes priced alone (scalar strikes)",
+                 index=singles[i], K=K[singles[i]], vector=call[singles[i]], alone=one[i], tol=1e-11 * spot)
+    # parity / forward against the independent forward on the whole vector
+    ref = df * (F - K)
+    i, err = _worst(call - put - ref)
+    j, err2 = _worst(fwdc - ref)
+    note("size.parity", max(err, err2), 1e-10 * spot)
+    if not max(err, err2) <= 1e-10 * spot:
+        i = i if err >= err2 else j
+        fail("c18.size.parity", "call - put or forward != df*(F-K) on the long vector", index=i, K=K[i], call=call[i], put=put[i],
+             forward=fwdc[i], expected=ref[i], tol=1e-10 * spot)
+    # the statement's shape oracles on the whole vector (box only)
+    if B.inbox:
+        tol = 1e-9 * spot
+        bad = None
+        if m >= 3:
+            bad = shape_violation(K, call, put, df, F, spot)
+        elif not max(np.max(df * np.maximum(F - K, 0.0) - call), np.max(call - df * F), np.max(df * np.maximum(K - F, 0) - put),
+                     np.max(put - df * K)) <= tol:
+            bad = "bounds: intrinsic <= call <= df*F or df*(K-F)^+ <= put <= df*K violated"
+        if bad is None and not (np.max(-dig) <= 1e-9 and np.max(dig - df) <= 1e-9 and (m < 2 or np.max(np.diff(dig)) <= 1e-9)):
+            bad = "digital outside [0, df] or increasing in the strike"
+        if bad:
+            fail("c18.size.shape", bad + " on the long vector", call_min=float(np.min(call)), call_max=float(np.max(call)),
+                 max_call_increment=float(np.max(np.diff(call))) if m > 1 else 0.0,
+                 min_second_difference=float(np.min(np.diff(call, 2))) if m > 2 else 0.0,
+                 digital_range=[float(np.min(dig)), float(np.max(dig))], df=df, F=F)
+    # the implied log-density on a long vector of points: vector == parts; non-negative in the box
+    if case.get("density", True):
+        u = math.log(spot) + np.linspace(B.a, B.b, m + 2)[1:-1]
+        dv = np.asarray(cos.density_log(T, u[perm]), dtype=float).reshape(-1)
+        dens = np.empty(m)
+        dens[perm] = dv if dv.shape == (m,) else np.nan
+        ref = np.concatenate([np.asarray(cos.density_log(T, u[i:i + s])).reshape(-1) for i, s in zip(np.cumsum([0] + sizes[:-1]), sizes)])
+        top = max(1.0, float(np.max(np.abs(ref))))
+        i, err = _worst(dens - ref)
+        if not err <= 1e-11 * top:
+            fail("c18.size.density", "COSPricer.density_log of a vector of points != the same points evaluated in short parts",
+                 index=i, u=u[i], vector=dens[i], parts=ref[i], tol=1e-11 * top)
+        elif B.inbox and np.min(dens) < -1e-8:
+            fail("c18.size.density", "implied log-density negative below -1e-8 on the long vector", min=float(np.min(dens)))
+    # Black-Scholes closed form on the same long vector: vector == elements, COS ~ closed form (all elements, independent reference)
+    if case["fam"] == "bs":
+        cf = B.model.closed_form
+        cc, cp, cg = (vec(lambda k, f=f: f(k, T)) for f in (cf.call, cf.put, cf.digital))
+        rc = _elementwise(lambda k: cf.call(k, T), K, sizes)
+        rg = _elementwise(lambda k: cf.digital(np.atleast_1d(k), T), K, sizes)
+        i, err = _worst(cc - rc)
+        j, err2 = _worst(cg - rg)
+        if not (err <= 1e-11 * spot and err2 <= 1e-11):
+            fail("c18.size.closed_form", "CFBlackScholes call / digital of a strike vector != the same strikes priced alone",
+                 index=i, K=K[i], vector=cc[i], alone=rc[i], digital_vector=cg[j], digital_alone=rg[j])
+        elif not np.max(np.abs(cc - cp - df * (F - K))) <= 1e-11 * spot:
+            fail("c18.size.closed_form", "closed-form parity on the long vector")
+        elif B.inbox:
+            i, err = _worst(cc - call)
+            j, err2 = _worst(cg - dig)
+            note("size.bs_cos", err, 1e-10 * spot)
+            if not (err <= 1e-10 * spot and np.max(np.abs(cp - put)) <= 1e-10 * spot and err2 <= 1e-9):
+                fail("c18.size.closed_form", "COS != Black-Scholes closed form on the long vector", index=i, K=K[i], cos_call=call[i],
+                     cf_call=cc[i], cos_digital=dig[j], cf_digital=cg[j], tol=1e-10 * spot)
+    # FFT pricer on the same long vector: parity, vector == a few parts and single strikes, COS ~ FFT in the FFT box
+    if case.get("fft"):
+        fft = FFTPricer(B.model)
+        try:
+            fc, fp = vec(lambda k: fft.call(k, T)), vec(lambda k: fft.put(k, T))
+            cuts = sorted({0, m, prng.randrange(m + 1)})
+            rf = np.concatenate([np.asarray(fft.call(float(K[a0]) if b0 - a0 == 1 else K[a0:b0], T)).reshape(-1)
+                                 for a0, b0 in zip(cuts[:-1], cuts[1:])])
+            js = singles[len(singles) // 2]
+            one = float(np.asarray(fft.call(float(K[js]), T)))
+        except ValueError as e:
+            if "sufficient condition" not in str(e):
+                raise
+            ctx.branches["c18.fft.alpha_condition_rejected"] += 1
+            return B
+        i, err = _worst(fc - rf)
+        if not (err <= 1e-11 * spot and abs(one - fc[js]) <= 1e-11 * spot):
+            fail("c18.size.fft", "FFTPricer.call of a strike vector != the same strikes priced in parts / alone", index=i, K=K[i],
+                 vector=fc[i], parts=rf[i])
+        elif not np.max(np.abs(fc - fp - df * (F - K))) <= 1e-10 * spot:
+            fail("c18.size.fft", "FFT call - put != df*(F-K) on the long vector")
+        elif B.fftbox:
+            i, err = _worst(fc - call)
+            note("size.cos_fft", err, FFT_TOL * spot)
+            if not err <= FFT_TOL * spot:
+                fail("c18.size.fft", "COS and FFT calls differ on the long vector", index=i, K=K[i], cos=call[i], fft=fc[i], tol=FFT_TOL * spot)
+    return B
+
+
+def size_cases(ctx, rng):
+    """the size regimes of one run (quick: 4 short, 1 of a few hundred, 3 with len * n in [2^22, 2^23.75])"""
+    def inbox_case(regime, n=None, fam=None):
+        for _ in range(8):
+            case = draw_size_case(rng, regime, fam=fam, n=n)
+            if Built(dict(case, m=3)).inbox:
+                break
+        return case
+
+    for _ in range(ctx.n(4, 12)):
+        case = draw_size_case(rng, "small")
+        case["fft"] = rng.random() < 0.25
+        size_probe(ctx, case)
+    for _ in range(ctx.n(1, 3)):
+        size_probe(ctx, inbox_case("hundreds"))
+    # long vectors: the default n first (in the box, so that the shape oracles run; FFT on the same vector), then other n
+    for i in range(ctx.n(1, 3)):
+        case = inbox_case("large", n=SIZE_N_DEFAULT)
+        case["fft"] = i == 0
+        size_probe(ctx, case)
+    ns = SIZE_N[:]
+    rng.shuffle(ns)
+    for i, n in enumerate(ns[:ctx.n(2, 5)]):
+        case = draw_size_case(rng, "large", n=n) if i % 2 else inbox_case("large", n=n)
+        case["density"] = i == 0
+        size_probe(ctx, case)
+
+
 # ---------------------------------------------------------------------------------------------------- driver
 def run_case(ctx, case, rng, heavy=True):
     if "hist" not in case:
@@ -1117,6 +1366,8 @@ def run(ctx):
         case = draw_case(rng, fam, y_branch=1.5 if fam == "cgmy" else None)
         case["live"] = draw_live(rng, case, attrs=["spot"])
         run_case(ctx, case, rng, heavy=(j <= 1) or ctx.thorough)
+    # size regimes: strike vectors (and density points) of length 1 ... len * n = 2^23.75, several n, against the elements priced alone
+    size_cases(ctx, rng)
     for k, (ratio, val) in sorted(WORST.items()):
         ctx.notes.append(f"worst observed {k}: {val:.3e} = {ratio:.3g} x tolerance")
 
@@ -1137,5 +1388,7 @@ def replay(ctx, rec):
         run_bs_degenerate(ctx, case)
     elif case.get("kind") == "exact":
         exact_density_probe(ctx, case)
+    elif case.get("kind") == "size":
+        size_probe(ctx, case)
     else:
         run_case(ctx, case, rng)
